@@ -192,6 +192,15 @@ CHECKS = {
             "foreign exceptions are bucketed by (type, innermost octave_mcp frame); timing uses ratios, not absolute limits; "
             "text excludes lone surrogates",
             "DESIGN.md §3 C20"),
+    "C06": ("exploration",
+            "differential across worker processes under a configuration matrix and shuffled call histories; byte equality of serialised envelopes",
+            "One generated batch of calls (all four tools, direct emit/seal/hash/Validator/GBNFCompiler) is executed by worker "
+            "processes that differ in PYTHONHASHSEED (0, 1, 4242, random), working directory, LANG/LC_ALL, and history (fresh, "
+            "after a shuffled permutation of the same calls in the same process, as tasks of one event loop); every call's "
+            "serialised envelope (key order kept, timestamps masked) must be byte-identical to the reference worker's.",
+            "the implementation is compared with itself; locales limited to those installed (C.UTF-8, C, POSIX); thread "
+            "interleavings inside the reader are not explored",
+            "DESIGN.md §3 C06"),
 }
 
 NOT_YET = {
